@@ -199,3 +199,19 @@ mutant("c17-h-guard", "C17", "R17.2/optimize::curve_fit/guard:h", (OP, "    if !
 mutant("c17-jac-analytic", "C17", "R17.3/optimize::jac_analytic", (OP, "            mat[(row, col)] = deriv[col];", "            mat[(col, row)] = deriv[col];"))
 mutant("c17-fd-not-restored", "C17", "R17.3/optimize::jac_finite_differences/restored", (OP, "            mat[(row, col)] = denom * (above + below);\n            params[col] += h;", "            mat[(row, col)] = denom * (above + below);"))
 benign("c17-linfit-refactor", "C17", (OP, "let b = (sum_x_sq * sum_y - sum_xy * sum_x) / denom;", "let b = (sum_y - a * sum_x) / m;"))
+
+# ---- C09
+IM, GA = "src/integrate/mod.rs", "src/integrate/gaussian.rs"
+mutant("c09-simpson-overwrite", "C09", "R9.3", (IM, "                sum_i[i - 1] = s1;\n", "                sum_i[i - 1] = sum_i[i - 2];\n"))
+mutant("c09-gaussian-interval", "C09", "R9.1/integrate::gaussian::integrate_gaussian/guard:left<right", (GA, "    if left >= right {\n        return Err(\"integrate_gaussian: left must be less than right\".to_owned());\n    }\n", ""))
+benign("c09-simpson-dead-push-arm", "C09", (IM, "                tol_i.push(half_real * v_6);\n                sum_i.push(s2);", "                tol_i.push(v_6);\n                sum_i.push(s2);"))
+mutant("c09-simpson-tol-half", "C09", "R9.3a", (IM, "                tol_i[i - 1] = half_real * v_6;", "                tol_i[i - 1] = v_6;"))
+mutant("c09-simpson-left-frame", "C09", "R9.3", (IM, "                left_i.push(v_1);\n                f_ai.push(v_2);\n                f_ci.push(f_d);\n                f_bi.push(v_3);", "                left_i.push(v_1);\n                f_ai.push(v_2);\n                f_ci.push(f_e);\n                f_bi.push(v_3);"))
+mutant("c09-simpson-area", "C09", "R9.3b", (IM, "            area += s1 + s2;", "            area += v_7;"))
+mutant("c09-affine-shift", "C09", "R9.2/integrate::integrate/abscissa-map", (IM, "    let shift = (right + left) * half;\n    let scale_cmplx = N::from_real(scale);\n\n    let fun = |x: N::RealField| -> N {", "    let shift = (right - left) * half;\n    let scale_cmplx = N::from_real(scale);\n\n    let fun = |x: N::RealField| -> N {"))
+mutant("c09-gauss-scale", "C09", "R9.2/integrate::gaussian::integrate_gaussian/result-scale", (GA, "            * scale_cmplx,\n    )", "            * scale_cmplx\n            * scale_cmplx,\n    )"))
+mutant("c09-romberg-richardson", "C09", "R9.4", (IM, "/ (four.powi(j as i32 - 1) - N::one());", "/ (four.powi(j as i32) - N::one());"))
+mutant("c09-romberg-midpoints", "C09", "R9.4", (IM, "N::from_f64(k as f64 - 0.5).unwrap().real() * h", "N::from_f64(k as f64).unwrap().real() * h"))
+mutant("c09-stop-rule", "C09", "R9.5/integrate::gaussian::integrate_laguerre", (GA, "        let err = (area - prev_area).abs();\n        if err < tol && prev_err < tol {\n            return Ok(area);\n        }\n\n        prev_area = area;\n        prev_err = err;\n    }\n\n    Err(\"integrate_laguerre", "        let err = (area - prev_area).abs();\n        if err < tol {\n            return Ok(area);\n        }\n\n        prev_area = area;\n        prev_err = err;\n    }\n\n    Err(\"integrate_laguerre"))
+mutant("c09-tol-guard", "C09", "R9.1/integrate::integrate_simpson/guard:tol", (IM, "    if !tol.is_sign_positive() {\n        return Err(\"integrate: tolerance must be positive\".to_owned());\n    }\n\n    let sixth", "    let sixth"))
+benign("c09-simpson-refactor", "C09", (IM, "        let s1 = N::from_real(step_i[i - 1]) * (f_ai[i - 1] + four * f_d + f_ci[i - 1]) * sixth;", "        let s1 = (f_ai[i - 1] + f_ci[i - 1] + four * f_d) * N::from_real(step_i[i - 1]) * sixth;"))
